@@ -3,6 +3,7 @@ import Copia.Driver.C19
 import Copia.Model.OneWay
 import Copia.Model.Quote
 import Copia.Model.Target
+import Copia.Model.WalkTree
 namespace Copia.Driver.C04
 open Copia.OneWay Copia.Plan Copia.Driver
 
@@ -23,7 +24,58 @@ def showTree (t : Tree String String) : String :=
   ";".intercalate ((t.mergeSort fun a b => pathLe a.1 b.1).map fun (k, e) =>
     s!"{hexStr k}={e.content}:{e.size}:{e.mt}:{e.ns}")
 
+/-- one frame of the tree parser: a directory being read, its entries so far (latest first) -/
+structure WFrame where
+  name : String
+  readable : Bool
+  ents : List (Option (String × Copia.WalkTree.Node))
+
+def mkEntries : List (Option (String × Copia.WalkTree.Node)) → Copia.WalkTree.Entries
+  | [] => .nil
+  | some (nm, n) :: r => .cons nm n (mkEntries r)
+  | none :: r => .bad (mkEntries r)
+
+/-- a tree in preorder: `f:<hex>` file, `l:` symlink to a file, `x:` other symlink, `o:` other kind, `t:` entry whose type
+cannot be read, `e:` the entry stream fails here, `D1:<hex>` / `D0:<hex>` open a readable / unreadable directory, `)` closes it -/
+def parseWalk (toks : List String) : Option Copia.WalkTree.Node :=
+  let rec go : List String → List WFrame → Option Copia.WalkTree.Node
+    | [], [root] => some (.dir root.readable (mkEntries root.ents.reverse))
+    | [], _ => none
+    | ")" :: rest, fr :: parent :: st =>
+        go rest ({ parent with ents := some (fr.name, .dir fr.readable (mkEntries fr.ents.reverse)) :: parent.ents } :: st)
+    | tok :: rest, fr :: st =>
+        match tok.splitOn ":" with
+        | [k, h] =>
+          match unhexStr h with
+          | none => none
+          | some nm =>
+            let leaf (kd : Copia.WalkTree.Kind) := go rest ({ fr with ents := some (nm, .leaf kd) :: fr.ents } :: st)
+            match k with
+            | "f" => leaf .file
+            | "l" => leaf .linkFile
+            | "x" => leaf .linkOther
+            | "o" => leaf .other
+            | "t" => leaf .badType
+            | "e" => go rest ({ fr with ents := none :: fr.ents } :: st)
+            | "D1" => go rest ({ name := nm, readable := true, ents := [] } :: fr :: st)
+            | "D0" => go rest ({ name := nm, readable := false, ents := [] } :: fr :: st)
+            | _ => none
+        | _ => none
+    | _, [] => none
+  go toks [{ name := "", readable := true, ents := [] }]
+
+def compsLe : List String → List String → Bool
+  | [], _ => true
+  | _ :: _, [] => false
+  | a :: as, b :: bs => if a < b then true else if b < a then false else compsLe as bs
+
 def handle : List String → Option String
+  | ["walk", t] => do
+    let node ← parseWalk (if t = "-" then [] else t.splitOn ",")
+    if Copia.WalkTree.clean node then
+      let fs := (Copia.WalkTree.files [] node).mergeSort compsLe
+      some (if fs.isEmpty then "-" else ",".intercalate (fs.map fun p => hexStr ("/".intercalate p)))
+    else some "FAIL"
   | ["ow", del, ex, s, d] => do
     let ex ← C19.parseList ex; let S ← parseTree s; let D ← parseTree d
     let exl := ex.map (·.toList)
